@@ -210,6 +210,26 @@ def run(ctx: Context, col) -> None:
         raise AnalysisError(f"create_range_space: the space is built by a construct outside the rule's vocabulary (itertools.product over per-dimension "
                             f"ranges, or the np.indices grid idiom): {show_norm(space)[:160]}")
     ranges = prods[0][2][0][1]
+    # an explicit dtype of the per-dimension ranges: the listed values run from MINS[i] to MAXS[i]
+    rk = [x for x in subterms(ranges) if x[0] == "app" and x[1] == "arange" and any(a[0] == "kw" and a[1] == "dtype" for a in x[2])]
+    if rk:
+        dt = [a[2] for a in rk[0][2] if a[0] == "kw" and a[1] == "dtype"][0]
+        dtxt = show_norm(dt)
+        mst = [x for x in subterms(dt) if x[0] == "app" and x[1].lstrip("?") in ("np.min_scalar_type", "jnp.min_scalar_type", "numpy.min_scalar_type")]
+        short = dtxt.replace(">", "").split(".")[-1].strip()
+        if short in NARROW_INT_DTYPES:
+            col.add("R19.3", construct, file, fn.lineno, False,
+                    f"the per-dimension ranges are enumerated in {short}: they run up to MAXS[i], which nothing bounds by the range of {short}, so a "
+                    "wider bound wraps around and the space lists wrong vectors while the index function uses the true dimensions", text="space term")
+            return
+        if mst:
+            col.add("R19.3", construct, file, fn.lineno, False,
+                    f"the per-dimension ranges are enumerated in the dtype `{dtxt[:80]}`: min_scalar_type(x) guarantees only that x itself is representable "
+                    "(for x = -b a signed type holding [-b, b-1]); the ranges list every value from MINS[i] to MAXS[i], so a bound equal to the type's "
+                    "limit + 1 (128, 32768) wraps around and the space lists a vector outside the box in place of one inside it", text="space term")
+            return
+        raise AnalysisError(f"create_range_space: the per-dimension ranges are enumerated in the dtype `{dtxt[:80]}`, which is chosen at run time; "
+                            "whether every listed value fits cannot be decided")
     i = fresh("dim")
     want_ranges = ("lam", i, "dim", ("app", "arange", (I.elem(MINS, i), T_add(I.elem(MAXS, i), K(1)))))
     ok3 = alpha_norm(ranges) == alpha_norm(want_ranges) and space == prods[0]
